@@ -117,6 +117,8 @@ struct Shm {
     phase: u64,     // 0 random, 1 fixed, 2 regress
     nfp: u64,
     saturated: u64,
+    /// 1 while the worker is shrinking a failure (the heartbeat case is then not the one executing)
+    shrinking: u64,
     fps: [u64; FP_CAP],
 }
 
@@ -379,6 +381,9 @@ unsafe fn worker_main<P: Property>(p: &mut P, cfg: &RunCfg, w: usize, start_afte
                 if seen_sigs.insert(sig.clone()) && seen_sigs.len() <= 8 {
                     // shrink: the same signature must persist (never shrink into a different or known failure)
                     let sig0 = sig.clone();
+                    let cand_path = format!("{}/{}-cand-w{}.json", replay_dir(), p.id(), w);
+                    let _ = std::fs::create_dir_all(replay_dir());
+                    std::ptr::write_volatile(&mut (*shm).shrinking, 1);
                     let (best, _iters) = tape::shrink(
                         tree,
                         |t| {
@@ -386,6 +391,11 @@ unsafe fn worker_main<P: Property>(p: &mut P, cfg: &RunCfg, w: usize, start_afte
                                 Ok(c) => c,
                                 Err(_) => return false,
                             };
+                            if p.claims_termination() {
+                                // remember the candidate: if it never returns, the supervisor re-runs exactly it
+                                let v = json!({"property": p.id(), "signature": "shrink candidate (written before it ran)", "case": serde_json::to_value(&c).unwrap_or(Value::Null)});
+                                let _ = std::fs::write(&cand_path, serde_json::to_string(&v).unwrap());
+                            }
                             match filter(exec_guarded(p, &c), kf, p.id()).verdict {
                                 Verdict::Fail { sig, .. } => sig == sig0,
                                 _ => false,
@@ -393,6 +403,7 @@ unsafe fn worker_main<P: Property>(p: &mut P, cfg: &RunCfg, w: usize, start_afte
                         },
                         1500,
                     );
+                    std::ptr::write_volatile(&mut (*shm).shrinking, 0);
                     let bc = decode_guarded(p, &best).unwrap_or_else(|_| case.clone());
                     let bmsg = match filter(exec_guarded(p, &bc), kf, p.id()).verdict {
                         Verdict::Fail { msg, .. } => msg,
@@ -440,6 +451,7 @@ unsafe fn spawn<P: Property>(p: &mut P, cfg: &RunCfg, w: usize, start_after: Opt
     let mut fds = [0i32; 2];
     assert_eq!(libc::pipe(fds.as_mut_ptr()), 0);
     std::ptr::write_volatile(&mut (*shm).heartbeat, 0);
+    std::ptr::write_volatile(&mut (*shm).shrinking, 0);
     let pid = libc::fork();
     assert!(pid >= 0, "fork failed");
     if pid == 0 {
@@ -459,6 +471,11 @@ fn solo_replay_path(id: &str, phase: u64, idx: u64) -> String {
 }
 
 unsafe fn solo<P: Property>(p: &mut P, cfg: &RunCfg, phase: u64, idx: u64, budget: Duration, kf: &KnownFindings) -> Result<Option<(String, String)>, String> {
+    solo_from(p, cfg, phase, idx, budget, kf, None)
+}
+
+/// `case_file`: run the case stored in this JSON file instead of regenerating case (phase, idx).
+unsafe fn solo_from<P: Property>(p: &mut P, cfg: &RunCfg, phase: u64, idx: u64, budget: Duration, kf: &KnownFindings, case_file: Option<&str>) -> Result<Option<(String, String)>, String> {
     let mut fds = [0i32; 2];
     assert_eq!(libc::pipe(fds.as_mut_ptr()), 0);
     let pid = libc::fork();
@@ -466,7 +483,9 @@ unsafe fn solo<P: Property>(p: &mut P, cfg: &RunCfg, phase: u64, idx: u64, budge
         libc::close(fds[0]);
         util::install_panic_hook();
         p.setup();
+        let from_file: Option<P::Case> = case_file.and_then(|f| std::fs::read_to_string(f).ok()).and_then(|t| serde_json::from_str::<Value>(&t).ok()).and_then(|v| serde_json::from_value(v["case"].clone()).ok());
         let case = match phase {
+            _ if from_file.is_some() => from_file,
             0 => {
                 let tree = tape::new_tree(&p.shape(), case_seed(cfg.seed, p.id(), idx));
                 decode_guarded(p, &tree.current()).ok()
@@ -543,6 +562,7 @@ pub fn run<P: Property>(p: &mut P, cfg: &RunCfg) -> Outcome {
     let mut all_fp: HashSet<u64> = HashSet::new();
     let mut saturated = false;
     let mut hangs_ignored = 0u64;
+    let mut aborted = false;
 
     unsafe {
         let mut children: Vec<Child> = (0..nw)
@@ -553,9 +573,29 @@ pub fn run<P: Property>(p: &mut P, cfg: &RunCfg) -> Outcome {
             .collect();
         let wd = Duration::from_secs(p.watchdog_s());
         let mut respawns = 0usize;
+        let mut abort_all = false;
+        let mut watchdog_events = 0u32;
         loop {
+            if abort_all {
+                for c in children.iter_mut() {
+                    if !c.done {
+                        libc::kill(c.pid, libc::SIGKILL);
+                        let mut st = 0i32;
+                        libc::waitpid(c.pid, &mut st, 0);
+                        c.done = true;
+                    }
+                }
+                if failures.iter().any(|f| f.sig.starts_with("hang|")) {
+                    inconclusive.clear();
+                }
+                aborted = true;
+                break;
+            }
             let mut alive = 0;
             for ci in 0..children.len() {
+                if abort_all {
+                    break;
+                }
                 if children[ci].done {
                     continue;
                 }
@@ -601,6 +641,9 @@ pub fn run<P: Property>(p: &mut P, cfg: &RunCfg) -> Outcome {
                     died = Some("watchdog".into());
                 }
                 if let Some(why) = died {
+                    if std::env::var("AXVERIF_DEBUG").is_ok() {
+                        eprintln!("[sup] worker {} {} at phase {} heartbeat {} shrinking {}", children[ci].w, why, hb.0, hb.1, std::ptr::read_volatile(&(*children[ci].shm).shrinking));
+                    }
                     // attribute to the case in the heartbeat, re-run it alone, then respawn the worker after it
                     let (phase, hbv) = hb;
                     let w = children[ci].w;
@@ -614,7 +657,18 @@ pub fn run<P: Property>(p: &mut P, cfg: &RunCfg) -> Outcome {
                         continue;
                     }
                     let idx = hbv - 1;
-                    let solo_res = solo(p, cfg, phase, idx, Duration::from_secs(60), &kf);
+                    let was_shrinking = std::ptr::read_volatile(&(*children[ci].shm).shrinking) != 0;
+                    let cand = format!("{}/{}-cand-w{}.json", replay_dir(), id, w);
+                    watchdog_events += 1;
+                    let solo_res = if was_shrinking && std::path::Path::new(&cand).exists() {
+                        solo_from(p, cfg, phase, idx, Duration::from_secs(60), &kf, Some(&cand))
+                    } else {
+                        solo(p, cfg, phase, idx, Duration::from_secs(60), &kf)
+                    };
+                    if watchdog_events >= 12 {
+                        inconclusive.push("12 worker deaths/watchdog events in one run; stopping early".into());
+                        abort_all = true;
+                    }
                     match solo_res {
                         Err(kind) => {
                             // reproduced abort / hang
@@ -632,8 +686,20 @@ pub fn run<P: Property>(p: &mut P, cfg: &RunCfg) -> Outcome {
                                     inconclusive.push(format!("case {}:{} hangs (reproduced) but {} does not claim termination", phase, idx, id));
                                 } else if !failures.iter().any(|f| f.sig == sig) {
                                     // the solo child wrote the replay file before running the case
-                                    let path = if phase == 2 { format!("{}/<regress #{}>", regress_dir(id), idx) } else { solo_replay_path(id, phase, idx) };
+                                    let path = if was_shrinking && std::path::Path::new(&cand).exists() {
+                                        let keep = format!("{}/{}-hang-{}.json", replay_dir(), id, idx);
+                                        let _ = std::fs::copy(&cand, &keep);
+                                        keep
+                                    } else if phase == 2 {
+                                        format!("{}/<regress #{}>", regress_dir(id), idx)
+                                    } else {
+                                        solo_replay_path(id, phase, idx)
+                                    };
                                     failures.push(Failure { sig, msg: format!("worker process ended by {} while executing case {}", kind, idx), replay: path, case_index: idx as i64 });
+                                    if is_hang {
+                                        // a reproduced hang decides the run; every further one would cost the watchdog again
+                                        abort_all = true;
+                                    }
                                 }
                             }
                         }
@@ -658,7 +724,7 @@ pub fn run<P: Property>(p: &mut P, cfg: &RunCfg) -> Outcome {
                     children[ci] = spawn(p, cfg, w, Some((phase, idx)), total, shm, &kf);
                 }
             }
-            if alive == 0 {
+            if alive == 0 && !abort_all {
                 break;
             }
             std::thread::sleep(Duration::from_millis(2));
@@ -666,7 +732,7 @@ pub fn run<P: Property>(p: &mut P, cfg: &RunCfg) -> Outcome {
         for c in &mut children {
             let buf = std::mem::take(&mut c.buf);
             let got = parse_msgs(&buf, &mut failures, &mut agg, false);
-            if !got {
+            if !got && !aborted {
                 inconclusive.push(format!("worker {} ended without a summary", c.w));
             }
             libc::close(c.fd);
